@@ -26,6 +26,18 @@
   diagram, and the substituted gradient, evaluate to the derivative of the substituted evaluation
   resp. the substituted derivative (any ring homomorphism, any derivation), and agree when the
   substitution commutes with the derivation.
+  FORMAL SUMS (Model/ParamSum.lean: circuit.Sum.grad, circuit.py:673-674, = the gradients of the
+  terms concatenated, one per occurrence): `grad_sum` — for terms of any kind with an evaluation
+  into a commutative ring, if every term's gradient evaluates to the derivative of the term, the
+  gradient of the sum evaluates to the derivative of the evaluation of the sum (a LIST: a term
+  occurring n times contributes n times, `grad_sum_multiplicity`); `grad_sum_tensor` for lists of
+  layer lists under the hypotheses of the product rule; `grad_twice` — the gradient of the sum that
+  `grad` returned evaluates to D'(D(eval)) (second and, iterating, higher order, mixed partials);
+  the executable instance `grad_poly_sum`, `grad_poly_twice` (driver commands `psumgrad`, `pgrad2`).
+  tensor.Sum has NO grad of its own in discopy 0.3.5: the inherited Diagram.grad sees a box without
+  free symbols and returns the empty sum (finding F4s) — `tensor_sum_grad_as_found`, and the
+  theorems above are about the repaired transcription (`sumHasGrad = true`).  A rule that
+  differentiates each DISTINCT term once is refuted on a witness (`distinct_terms_rule_is_wrong`).
   `decide`d witnesses of finding F9 (mixed meaning of `Scalar.grad`) on integer polynomials.
   NOT proved: that sympy's `diff` is such a derivation and that sympy's exp/sin/cos satisfy
   `PhaseHyp` (oracle; sympy's polynomial arithmetic is compared with the model's by the streams
@@ -36,6 +48,7 @@
 -/
 import Proofs.ParamJet
 import Proofs.PolyBubble
+import Proofs.ParamSum
 
 namespace DV.C15
 open DV.Param
@@ -323,6 +336,64 @@ example (ls : List (PLayer NPoly)) (i k : Nat) :=
     true (npolyDep 0) (npolyDep 0) (NPoly.derivN_conj 0) (NPoly.derivN_conj 0) (npolyDep_spec 0)
     (npolyDep_spec 0) ls i k
 
+/-! ### formal sums and higher-order gradients -/
+
+/-- **Gradient of a formal sum** (circuit.Sum.grad; terms of any kind): one gradient per
+    occurrence of a term, and the whole evaluates to the derivative of the evaluation of the sum. -/
+theorem grad_sum {R T : Type} [CommRing R] (d : Deriv R) (ev : T → R) (g : T → List T)
+    (hg : ∀ t, ((g t).map ev).sum = d.D (ev t)) (ts : List T) :
+    ((gradSum g ts).map ev).sum = d.D ((ts.map ev).sum) :=
+  DV.Param.grad_sum d ev g hg ts
+
+/-- Multiplicity: the gradient of `t + ts` is the gradient of `t` followed by that of `ts`; a term
+    occurring `n` times contributes its gradient `n` times. -/
+theorem grad_sum_multiplicity {T : Type} (g : T → List T) (t : T) (ts : List T) (n : Nat) :
+    gradSum g (t :: ts) = g t ++ gradSum g ts
+      ∧ (gradSum g (List.replicate n t)).length = n * (g t).length :=
+  ⟨gradSum_cons g t ts, gradSum_replicate_length g t n⟩
+
+/-- Formal sums of tensor diagrams under the hypotheses of the product rule. -/
+theorem grad_sum_tensor {R : Type} [CommRing R] [HasConj R] (d : Deriv R)
+    (dep : PBox R → Bool) (G : PBox R → List (PBox R))
+    (hdims : ∀ b, ∀ b' ∈ G b, b'.dom = b.dom ∧ b'.cod = b.cod)
+    (hG : ∀ b i j, ((G b).map (fun b' => b'.arr i j)).sum = d.D (b.arr i j))
+    (hdep : ∀ b, dep b = false → ∀ i j, d.D (b.arr i j) = 0)
+    (ts : List (List (PLayer R))) (i k : Nat) :
+    evalSum (gradSum (gradLayers dep G) ts) i k = d.D (evalSum ts i k) :=
+  grad_sum_layers d dep G hdims hG hdep ts i k
+
+/-- **Second-order gradients** `d.grad(x).grad(y)`: the gradient of the sum returned by `grad`
+    evaluates to `D_y (D_x (eval d))`. -/
+theorem grad_twice {R : Type} [CommRing R] [HasConj R] (d d' : Deriv R)
+    (dep dep' : PBox R → Bool) (G G' : PBox R → List (PBox R))
+    (hdims : ∀ b, ∀ b' ∈ G b, b'.dom = b.dom ∧ b'.cod = b.cod)
+    (hG : ∀ b i j, ((G b).map (fun b' => b'.arr i j)).sum = d.D (b.arr i j))
+    (hdep : ∀ b, dep b = false → ∀ i j, d.D (b.arr i j) = 0)
+    (hdims' : ∀ b, ∀ b' ∈ G' b, b'.dom = b.dom ∧ b'.cod = b.cod)
+    (hG' : ∀ b i j, ((G' b).map (fun b' => b'.arr i j)).sum = d'.D (b.arr i j))
+    (hdep' : ∀ b, dep' b = false → ∀ i j, d'.D (b.arr i j) = 0)
+    (ls : List (PLayer R)) (i k : Nat) :
+    evalSum (gradSum (gradLayers dep' G') (gradLayers dep G ls)) i k
+      = d'.D (d.D (evalLayers ls i k)) :=
+  grad_twice_layers d d' dep dep' G G' hdims hG hdep hdims' hG' hdep' ls i k
+
+/-- The executable instance (driver command `psumgrad`, repaired sums). -/
+theorem grad_poly_sum (checksFS : Bool) (v : Nat) (ts : List (List (PLayer Poly))) (i k : Nat) :
+    evalSum (polySumGrad true checksFS v ts) i k = Poly.deriv v (evalSum ts i k) :=
+  grad_poly_sum_proof checksFS v ts i k
+
+/-- The executable instance (driver command `pgrad2`, repaired sums). -/
+theorem grad_poly_twice (checksFS : Bool) (v w : Nat) (d : PolyDiagram) (i k : Nat) :
+    evalSum (polyGradTwice true checksFS v w d.layers) i k
+      = Poly.deriv w (Poly.deriv v (d.eval i k)) :=
+  grad_poly_twice_proof checksFS v w d.layers i k
+
+/-- Finding F4s on the model: as the code is, the gradient of ANY formal sum of tensor diagrams is
+    the empty sum (tensor.Sum inherits Diagram.grad, which sees a box without free symbols). -/
+theorem tensor_sum_grad_as_found (checksFS : Bool) (v : Nat) (ts : List (List (PLayer Poly))) :
+    polySumGrad false checksFS v ts = [] :=
+  polySumGrad_as_found checksFS v ts
+
 /-! ### non-vacuity: first-order jets over ℤ/17 (Proofs/ParamJet.lean) -/
 
 open DV.Param.Jet in
@@ -362,6 +433,24 @@ example : (g0.grad false 0).length = 2 := by decide
 example : evalSum (g0.grad false 0) 1 1 = Poly.deriv 0 (g0.eval 1 1) := by decide
 example : g0.grad false 2 = [] := by decide
 example : evalSum (g0.grad true 0) 0 1 = Poly.deriv 0 (g0.eval 0 1) := grad_poly_repaired g0 0 0 1
+
+/-- The formal sum `g0 + g0`: its gradient has 2 · 2 terms and evaluates to the derivative of the
+    sum; the second-order gradient of `g0` has 4 terms. -/
+example : (polySumGrad true false 0 [g0.layers, g0.layers]).length = 4 := by decide
+example : evalSum (polySumGrad true false 0 [g0.layers, g0.layers]) 1 1
+    = Poly.deriv 0 (evalSum [g0.layers, g0.layers] 1 1) := grad_poly_sum false 0 _ 1 1
+example : Poly.deriv 0 (evalSum [g0.layers, g0.layers] 1 1) ≠ 0 := by decide
+example : (polyGradTwice true false 0 1 g0.layers).length = 2 := by decide
+example : evalSum (polyGradTwice true false 0 1 g0.layers) 1 1
+    = Poly.deriv 1 (Poly.deriv 0 (g0.eval 1 1)) := grad_poly_twice false 0 1 g0 1 1
+example : Poly.deriv 1 (Poly.deriv 0 (g0.eval 1 1)) ≠ 0 := by decide
+
+/-- "Differentiate each distinct term only once" is NOT the gradient of a sum: on `g0 + g0` it
+    gives half the derivative. -/
+theorem distinct_terms_rule_is_wrong :
+    evalSum (gradSumDistinct (polyGradLayers false 0) [g0.layers, g0.layers]) 1 1
+      ≠ Poly.deriv 0 (evalSum [g0.layers, g0.layers] 1 1) := by
+  decide
 
 /-- `h >> f.bubble(p)` with `p(t) = 1 + 2t + t³`, `h : 1 → 2`, `f : 2 → 2`. -/
 def b0 : List (XLayer Poly) :=
